@@ -694,9 +694,10 @@ S_PeerSilent ==
     /\ shutdownIn' = FALSE
     /\ UNCHANGED <<sctp, spermit, opened, abortIn>> /\ UNCHANGED SUnch
 
-\* in the direct modes the transport loops (rtcp reader, pair monitor) end when the ICE socket goes
+\* in the direct modes, and in WebRtc mode without a data channel (no SCTP runner among the loops), the transport loops
+\* (rtcp reader, pair monitor) end when the ICE socket goes
 T_DirectEnd ==
-    /\ IsDirect /\ loops = "running" /\ ~sock
+    /\ (IsDirect \/ ~HasDc) /\ loops = "running" /\ ~sock
     /\ loops' = "done"
     /\ UNCHANGED <<sctp, stask, srun, spermit, swhy, chan, opened, closes, abortIn, shutdownIn>> /\ UNCHANGED SUnch /\ UNCHANGED sendpc
 
